@@ -43,7 +43,7 @@ def check_dispatch(ctx, oid="C08.1"):
         key = tm.sized("pubkey", L)
         isp, isb, iss, iss2 = classes(key)
         ev.assumptions = {isp: True}
-        kind, val = rules.decided_outcome(ev.run(fi, {pname: key}))
+        kind, val = rules.strict_outcome(ev.run(fi, {pname: key}))
         want = tm.cat([bytes([L]), key, b"\xac"])
         R.check(oid, "DECISION-TABLE", fi, "valid %d-byte SEC1 key -> P2PK: push(key) OP_CHECKSIG" % L, kind == "return" and tm.veq(val, want),
                 "a valid %d-byte public key maps to %s %s" % (L, kind, tm.show(val)[:120]))
@@ -55,7 +55,7 @@ def check_dispatch(ctx, oid="C08.1"):
     wrong = []
     for v in [None] + list(range(256)):
         ev.bind = {D: tm.cat([bytes([v]), h]) if v is not None else b""}
-        kind, val = rules.decided_outcome(ev.run(fi))
+        kind, val = rules.strict_outcome(ev.run(fi))
         if v in (0x00, 0x6f):
             ok = kind == "return" and tm.veq(val, tm.cat([bytes.fromhex("76a914"), h, bytes.fromhex("88ac")]))
         elif v in (0x05, 0xc4):
@@ -79,7 +79,7 @@ def check_dispatch(ctx, oid="C08.1"):
                 prog = tm.sized("program", L)
                 ev.assumptions = {isp: False, isb: False, iss: True, iss2: True}
                 ev.bind = {seg: (hrp, wv, prog)}
-                kind, val = rules.decided_outcome(ev.run(fi))
+                kind, val = rules.strict_outcome(ev.run(fi))
                 want = tm.cat([bytes([0x00 if wv == 0 else 0x50 + wv, L]), prog])
                 if not (kind == "return" and tm.veq(val, want)):
                     bad.append((wv, hrp, kind, val))
@@ -88,7 +88,7 @@ def check_dispatch(ctx, oid="C08.1"):
                 example="a valid version-1..16 address with a %d-byte program" % L)
     ev.bind = {}
     ev.assumptions = {isp: False, isb: False, iss: False, iss2: False}
-    kind, val = rules.decided_outcome(ev.run(fi))
+    kind, val = rules.strict_outcome(ev.run(fi))
     R.check(oid, "DECISION-TABLE", fi, "none of key / Base58Check / segwit -> error", kind == "raise", "unclassifiable input maps to %s %s" % (kind, tm.show(val)[:100]))
     ev.assumptions = {}
 
